@@ -24,10 +24,10 @@ type BF struct {
 type BAtom struct {
 	// Src/SrcPos: the atom is true exactly when boolean symbol Src has value SrcPos
 	// (kept so that formulas of helper functions can be re-instantiated at call sites).
-	Src    *Sym
-	SrcPos bool
-	L      *Lin // for <= atoms: the canonical linear form (L <= 0)
-	EqL    *Lin // for == atoms: the canonical linear form (EqL == 0)
+	Src     *Sym
+	SrcPos  bool
+	L       *Lin // for <= atoms: the canonical linear form (L <= 0)
+	EqL     *Lin // for == atoms: the canonical linear form (EqL == 0)
 	Key     string
 	EnumSym string // non-empty for `sym == const` atoms
 	EnumVal int64
@@ -987,7 +987,6 @@ func (fi *FuncInfo) atomsKilled(code *BF, spec *BF, at ssa.Instruction) string {
 	return ""
 }
 
-
 func isUnsignedSym(s *Sym) bool {
 	if s == nil || s.Typ == nil {
 		return false
@@ -995,7 +994,6 @@ func isUnsignedSym(s *Sym) bool {
 	b, ok := s.Typ.Underlying().(*types.Basic)
 	return ok && b.Info()&types.IsUnsigned != 0
 }
-
 
 // isNonNilValue: values that are never nil: fresh allocations and interface
 // values made from a concrete value.
@@ -1006,7 +1004,6 @@ func isNonNilValue(v ssa.Value) bool {
 	}
 	return false
 }
-
 
 // assignBF substitutes a truth value for an atom.
 func assignBF(f *BF, key string, val bool) *BF {
@@ -1062,7 +1059,6 @@ func projectBF(f *BF, keep func(*BAtom) bool) *BF {
 	}
 	return bfOr(cur...)
 }
-
 
 // linDirection splits a linear form into a sign-normalised term part (as a
 // key), the sign applied and the constant: L = sign*dir + k.
